@@ -31,4 +31,21 @@ func (gf *GlobalFilter) Handle(ctx *context.Context, handler context.Handler)
   ghost at call[1] HandleWithBeforeAfter: gfMain := ref(p)
   ghost at call[1] HandleWithBeforeAfter: gfBefore := ref(before)
   ghost at call[1] HandleWithBeforeAfter: gfAfter := ref(after)
+
+// ---- C13: both global pipelines go through the pipeline validation (filters, flow cross-references, jumps,
+// resilience policies) whatever they contain: reload instantiates a sub-pipeline as soon as it has a flow
+ghost var gBeforeValidated int   // the spec pipeline.Spec.Validate was called on first
+ghost var gAfterValidated int    // ... and second
+ghost var gValidations int
+
+func (s *Spec) Validate() (err error)
+  flag allocates
+  requires s != nil
+  modifies gBeforeValidated, gAfterValidated, gValidations, allof("ghost:github.com/megaease/easegress/pkg/object/pipeline.gFlowChecked"), allof("ghost:github.com/megaease/easegress/pkg/object/pipeline.gSpecsLen"), allof("ghost:github.com/megaease/easegress/pkg/object/pipeline.gPolicies")
+  panics_only_if true
+  ensures an-accepted-spec-had-both-pipelines-validated: err == nil ==> gBeforeValidated == addr(s.BeforePipeline) && gAfterValidated == addr(s.AfterPipeline)
+  ghost at entry: gBeforeValidated := 0
+  ghost at entry: gAfterValidated := 0
+  ghost at call[1] Validate: gBeforeValidated := ref(ps)
+  ghost at call[2] Validate: gAfterValidated := ref(ps)
 @*/
